@@ -159,7 +159,8 @@ pub fn exec_c03(plan: &C03Plan, st: &mut Stats) -> Option<Violation> {
                 if let Outcome::Panic(pp) = &o {
                     // A crash is C01's verdict.  It is a C03 violation only if a complete,
                     // valid PREDICTED picture fails to decode because of it.
-                    if cut.is_none() && spec.ptype != PType::I && !tainted {
+                    let valid_here = reference.as_ref().map(|r| (r.width, r.height) == (spec.width, spec.height)).unwrap_or(false);
+                    if cut.is_none() && spec.ptype != PType::I && !tainted && valid_here {
                         return viol("valid predicted picture not decoded (panic)", format!("{what}: {pp}"));
                     }
                     st.inc("panic_not_judged_here");
